@@ -9,7 +9,7 @@ WT=/tmp/seed_$PID; OUT=/tmp/seed_${PID}_out
 V=$(cd "$(dirname "$0")/.." && pwd)
 DEST=$V/seeded/${PID}${N:+_$N}
 cd $WT || exit 2
-git checkout -q -- . && git clean -fdq -e target -e .kverif_harness
+git reset -q --hard && git clean -fdq -e target -e .kverif_harness
 run() { CARGO_NET_OFFLINE=true cargo test --workspace --offline --no-fail-fast 2>&1; }
 summ() { grep -E "^test result" "$1" | awk '{p+=$4; f+=$6} END {print p" passed "f" failed"}'; }
 git apply "$OUT/demo$N.diff" || { echo "demo does not apply"; exit 2; }
